@@ -36,9 +36,10 @@ CLAIMED = {
         "default-dict, different executor per output) completes the submitted tasks in an order chosen by symbolic integers (all orders of up to 4 "
         "pending tasks, first 4 choices; 6 in the thorough tier). For MAP-T templates with several tasks / functions per generation and dict, "
         "file_array, dict_sub and per-output storage mixes: results, stored data and load_outputs equal the denotation for ALL integer inputs, "
-        "each function is invoked exactly once per index, and no function is invoked before all values it consumes are complete.",
-        "Trusted: z3, CrossHair path exhaustion and builtin models; token pickle. Tasks interleave at task granularity only. Outside: real thread / "
-        "process pools and OS scheduling, map_async, real shared_memory_dict.",
+        "each function is invoked exactly once per index, and no function is invoked before all values it consumes are complete. map_async is "
+        "driven through a real asyncio event loop with an executor whose tasks complete in a symbolic order.",
+        "Trusted: z3, CrossHair path exhaustion and builtin models; token pickle. Tasks interleave at task granularity only (single thread). Outside: "
+        "real thread / process pools and OS scheduling, real shared_memory_dict.",
         "6 C03",
         TECH,
     ),
